@@ -125,6 +125,10 @@ def run(ctx):
                               if f[0] == "succ" and vssp(f[1]) else None},
                         brk=[lambda f: "pass" if f[0] == "variant" and f[1] == ("arg", 6) and f[2] == "FirstCheater"
                              else None], min_loops=1)
+        if not lr:
+            ctx.violation("PROV", det.key, "scan-over-all-shares-in-order",
+                          "the blame scan is not written as a loop over the signature-share map: its order, early stop and coverage "
+                          "cannot be decided (fails closed)", det.loc)
         if lr:
             lp = lr[0]
             ctx.check(strip_iter_calls(lp["iter_term"]) == ("arg", 4), "PROV", det.key, "scan-over-all-shares-in-order",
